@@ -430,6 +430,10 @@ class Writer:
                     first_kid.indent = 0        # up to four spaces after the marker belong to the marker
                 if first_kid.kind == 'hr' and not b.ordered and first_kid.s[0] == b.bullet:
                     first_kid.s = '___'         # '* ***' as a whole would be a thematic break
+                if first_kid.kind == 'list' and not b.ordered and not first_kid.ordered and first_kid.bullet == b.bullet:
+                    # '- - -' (a bullet list in a bullet list in a bullet list with one and the same marker, the innermost
+                    # item beginning with a blank line or another such list) as a whole would be a thematic break
+                    first_kid.bullet = {'-': '+', '+': '*', '*': '-'}[b.bullet]
                 inner = self.blocks(it.kids, in_quote, tight=b.tight)
                 any_blank = any_blank or self.last_blanks > 0
                 it.rel = len(out)
